@@ -185,7 +185,7 @@ pub fn generate(out: &mut Out, tier: &str, seed: u64) {
     }
     // random: more selections, longer texts (whitespace runs longer than the limit), reference sets of 1..3
     let mut rng = Rng::new(seed);
-    let nrand = if thorough { 40000 } else { 2500 };
+    let nrand = if thorough { 400000 } else { 2500 };
     let rlimits: Vec<Option<usize>> = vec![None, Some(0), Some(2), Some(6)];
     let ropsx = l(all_ops(&rlimits).iter().map(op_sx).collect());
     for _ in 0..nrand {
